@@ -146,7 +146,7 @@ def nothing_pending(t):
     return len(t._pending_place) == 0 and len(t._pending_cancel) == 0 and len(t._pending_update) == 0 and len(t._pending_replace) == 0
 
 
-@contract("flumine/execution/transaction.py::Transaction.execute", tags=["C02"])
+@contract("flumine/execution/transaction.py::Transaction.execute", tags=["C02", "C13"])
 def _(self) -> INT:
     requires("market_book_present", self.market.market_book is not None)
     requires("known_exchange", self._client.EXCHANGE == ExchangeType.BETFAIR or self._client.EXCHANGE == ExchangeType.SIMULATED or self._client.EXCHANGE == ExchangeType.BETDAQ)
@@ -173,7 +173,7 @@ def _(self) -> INT:
     ensures("nothing_sent_when_nothing_was_queued", implies(old(nothing_pending(self)), result == 0))
 
 
-@contract("flumine/execution/transaction.py::Transaction.__exit__", tags=["C02"])
+@contract("flumine/execution/transaction.py::Transaction.__exit__", tags=["C02", "C13"])  # C13: a callback that raises inside a transaction block still leaves nothing queued
 def _(self, exc_type: Opt(ATOM), exc_val: Opt(ATOM), exc_tb: Opt(ATOM)):
     requires("market_book_present", self.market.market_book is not None)
     requires("known_exchange", self._client.EXCHANGE == ExchangeType.BETFAIR or self._client.EXCHANGE == ExchangeType.SIMULATED or self._client.EXCHANGE == ExchangeType.BETDAQ)
